@@ -329,4 +329,33 @@ theorem patterns_ok : Generated.placeholderPatterns.all patOkB = true := by deci
 
 theorem templates_shielded : Generated.projectFiles.all (fun f => shielded f.2) = true := by decide +kernel
 
+theorem exists_mem_zip {α β : Type} : ∀ (l1 : List α) (l2 : List β) (a : α), a ∈ l1 → l1.length = l2.length →
+    ∃ b, (a, b) ∈ l1.zip l2 := by
+  intro l1
+  induction l1 with
+  | nil => intro l2 a h; cases h
+  | cons x l1 ih =>
+    intro l2 a h hl
+    cases l2 with
+    | nil => simp at hl
+    | cons y l2 =>
+      rcases List.mem_cons.1 h with rfl | h
+      · exact ⟨y, by simp⟩
+      · obtain ⟨b, hb⟩ := ih l2 a h (by simpa using hl)
+        exact ⟨b, by simp [hb]⟩
+
+/-- See `Cli.C20.render_total`. -/
+theorem render_no_placeholder (v : TemplateValues) (t : List Char) (ht : shielded t = true)
+    (hv : ∀ x ∈ Generated.placeholderValues v, NoOb x) :
+    ∀ p ∈ Generated.placeholderPatterns, ¬ (p <:+: render v t) := by
+  have hps : ∀ pr ∈ placeholders v, (∃ w, pr.1 = '{' :: w ∧ PatBody w) ∧ NoOb pr.2 := by
+    intro pr hpr
+    obtain ⟨h1, h2⟩ := List.of_mem_zip (a := pr.1) (b := pr.2) hpr
+    have hok := patterns_ok
+    rw [List.all_eq_true] at hok
+    exact ⟨patOkB_iff (hok _ h1), hv _ h2⟩
+  intro p hp
+  obtain ⟨b, hb⟩ := exists_mem_zip Generated.placeholderPatterns (Generated.placeholderValues v) p hp rfl
+  exact renderWith_no_placeholder (placeholders v) hps t ht (p, b) hb
+
 end Cli
